@@ -259,6 +259,125 @@ pub fn run(log: &mut Log, items: &[Kv], set: bool, policy: Policy, prefill: &[u8
     n
 }
 
+/// The bulk entry points over a scripted sink: one `extend_iter` / `extend_stream` call carries all
+/// items, so a fault hits the sink in the middle of a call that goes on to further items.
+enum Bulk<W: io::Write> {
+    Map(fst::MapBuilder<W>),
+    Set(fst::SetBuilder<W>),
+    Raw(Builder<W>),
+}
+
+impl<W: io::Write> Bulk<W> {
+    fn new(front: &str, w: W) -> Result<Bulk<W>, fst::Error> {
+        Ok(if front.starts_with("map") {
+            Bulk::Map(fst::MapBuilder::new(w)?)
+        } else if front.starts_with("set") {
+            Bulk::Set(fst::SetBuilder::new(w)?)
+        } else {
+            Bulk::Raw(Builder::new(w)?)
+        })
+    }
+    fn load(&mut self, front: &str, items: &[Kv]) -> Result<(), fst::Error> {
+        use crate::api::{VecStream, VecStreamMap, VecStreamSet};
+        let stream = front.ends_with("stream");
+        match self {
+            Bulk::Map(b) if stream => b.extend_stream(VecStreamMap { items: items.to_vec(), i: 0 }),
+            Bulk::Map(b) => b.extend_iter(items.iter().map(|(k, v)| (k.clone(), *v))),
+            Bulk::Set(b) if stream => b.extend_stream(VecStreamSet { items: items.to_vec(), i: 0 }),
+            Bulk::Set(b) => b.extend_iter(items.iter().map(|(k, _)| k.clone())),
+            Bulk::Raw(b) if stream => b.extend_stream(VecStream { items: items.to_vec(), i: 0 }),
+            Bulk::Raw(b) => b.extend_iter(items.iter().map(|(k, v)| (k.clone(), fst::raw::Output::new(*v)))),
+        }
+    }
+    fn bytes_written(&self) -> u64 {
+        match self {
+            Bulk::Map(b) => b.bytes_written(),
+            Bulk::Set(b) => b.bytes_written(),
+            Bulk::Raw(b) => b.bytes_written(),
+        }
+    }
+    fn finish(self) -> Result<(), fst::Error> {
+        match self {
+            Bulk::Map(b) => b.finish(),
+            Bulk::Set(b) => b.finish(),
+            Bulk::Raw(b) => b.finish(),
+        }
+    }
+}
+
+pub const BULK_FRONTS: &[&str] = &["map_extend_iter", "set_extend_iter", "map_extend_stream", "set_extend_stream", "raw_extend_iter", "raw_extend_stream"];
+
+/// One build of `items` by a single bulk call against a scripted sink (written to directly, so
+/// every write is followed).  Returns the number of write calls the sink saw.
+pub fn run_bulk(log: &mut Log, items: &[Kv], front: &str, policy: Policy, seed: u64) -> usize {
+    let set = front.starts_with("set");
+    let sh = Rc::new(RefCell::new(Shared { events: vec![], bytes: vec![], calls: 0, log_writes: true, dead: false }));
+    let sink = ScriptedSink { sh: sh.clone(), policy: policy.clone(), rng: rng(seed, 79), interrupted_once: false };
+    log.ev(json!({"ev": "KNew", "policy": format!("{:?}", policy), "prefill": 0, "buffered": -1, "set": set, "front": front}));
+    let drain = |log: &mut Log| {
+        let evs: Vec<Value> = std::mem::replace(&mut sh.borrow_mut().events, vec![]);
+        for e in evs {
+            log.ev(e);
+        }
+    };
+    let stop = |sh: &Rc<RefCell<Shared>>| {
+        let mut x = sh.borrow_mut();
+        x.log_writes = false;
+        x.dead = true;
+        x.calls
+    };
+    let r = guard(|| Bulk::new(front, sink));
+    drain(log);
+    let mut b = match r {
+        Ok(Ok(b)) => {
+            log.ev(json!({"ev": "Call", "name": "new", "res": jok(), "bw": [jn(b.bytes_written() as usize)], "tracked": true}));
+            b
+        }
+        Ok(Err(e)) => {
+            log.ev(json!({"ev": "Call", "name": "new", "res": jerr(&e), "bw": [], "tracked": true}));
+            return stop(&sh);
+        }
+        Err(p) => {
+            log.ev(json!({"ev": "Panic", "in": "new", "msg": p}));
+            return stop(&sh);
+        }
+    };
+    let r = guard(|| b.load(front, items));
+    drain(log);
+    match r {
+        Ok(r) => {
+            log.ev(json!({"ev": "Call", "name": front, "res": jres(&r), "bw": [jn(b.bytes_written() as usize)], "tracked": true}));
+            if r.is_err() {
+                return stop(&sh);
+            }
+        }
+        Err(p) => {
+            log.ev(json!({"ev": "Panic", "in": front, "msg": p}));
+            return stop(&sh);
+        }
+    }
+    let r = guard(|| b.finish());
+    drain(log);
+    match r {
+        Ok(r) => {
+            log.ev(json!({"ev": "Call", "name": "finish", "res": jres(&r), "bw": [], "tracked": true}));
+            if r.is_err() {
+                return stop(&sh);
+            }
+        }
+        Err(p) => {
+            log.ev(json!({"ev": "Panic", "in": "finish", "msg": p}));
+            return stop(&sh);
+        }
+    }
+    let got = sh.borrow().bytes.clone();
+    let refb = reference(items, set);
+    let model: Vec<Kv> = if set { items.iter().map(|(k, _)| (k.clone(), 0)).collect() } else { items.to_vec() };
+    log.ev(json!({"ev": "Done", "sink": jb(&got), "ref": jb(&refb), "prefill": [], "items": jitems(&model), "tracked": true}));
+    let n = sh.borrow().calls;
+    n
+}
+
 fn small_inputs(r: &mut StdRng, tier: &str) -> Vec<Vec<Kv>> {
     let mut v: Vec<Vec<Kv>> = vec![];
     v.push(vec![]);
@@ -300,6 +419,13 @@ pub fn c07(log: &mut Log, seed: u64, tier: &str) {
         run(log, items, set, Policy::Random { short: 50, intr: 30 }, b"\x00\x01", None, seed + i as u64, true);
         for cap in &[1usize, 7, 16, 8192] {
             run(log, items, set, Policy::Random { short: 40, intr: 20 }, b"", Some(*cap), seed + *cap as u64, true);
+        }
+    }
+    // the bulk entry points under chunking
+    for (i, items) in smalls.iter().enumerate() {
+        for (j, front) in BULK_FRONTS.iter().enumerate() {
+            run_bulk(log, items, front, Policy::Cap(1 + (i + j) % 5), seed);
+            run_bulk(log, items, front, Policy::Random { short: 40, intr: 20 }, seed + (i * 7 + j) as u64);
         }
     }
     // random schedules on larger inputs (final bytes only are judged for the largest)
@@ -352,6 +478,18 @@ pub fn c11(log: &mut Log, seed: u64, tier: &str) {
         }
         for kind in 0..5u8 {
             run(log, items, set, Policy::FlushFault(kind), b"", Some(64), seed, true);
+        }
+        // the bulk entry points: the faulted write falls into the middle of one call
+        for j in 0..2 {
+            let front = BULK_FRONTS[(2 * i + j) % BULK_FRONTS.len()];
+            let w = run_bulk(log, items, front, Policy::Cap(1 << 20), seed);
+            let step = if w > 60 && tier != "thorough" { w / 30 } else { 1 };
+            let mut idx = 0;
+            while idx < w {
+                run_bulk(log, items, front, Policy::FaultAt { index: idx, kind: ((idx + j) % 4) as u8 }, seed);
+                idx += step;
+            }
+            run_bulk(log, items, front, Policy::FlushFault((i % 5) as u8), seed);
         }
     }
 }
